@@ -415,10 +415,14 @@ def bounded_pose(kind, seed, tier):
     fails, evals, distinct = [], 0, set()
     mean_rot = {}
     worst_rot = {}
-    for L in (4, 8, 12):
-        sht = SHT(L)
+    d8 = SHT(8)
+    grids = [(4, SHT(4), False), (8, d8, False), (12, SHT(12), False),
+             (8, SHT(8, nphi=2 * int(d8.nphi) + 2, ntheta=int(d8.ntheta) + 6), True)]       # last: a finer grid chosen by the caller (shape channel, first two systems)
+    for L, sht, explicit in grids:
         for si, s in enumerate(syss):
             for prop in channels:
+                if explicit and (prop is not None or si >= 2):
+                    continue
                 if prop == "esp" and (len(s["Zi"]) < 2 or (tier == "quick" and si % 2)):
                     continue          # EEM charges of a single atom are zero: no channel
                 if prop == "callable" and tier == "quick" and si % 2 == 0:
@@ -426,6 +430,8 @@ def bounded_pose(kind, seed, tier):
                 key = f"{kind}:{'shape' if prop is None else 'property_channel'}"
                 base_in = {"system": s["name"], "Zi": s["Zi"].tolist(), "Pi": s["Pi"].tolist(), "Ze": None if s.get("Ze") is None else s["Ze"].tolist(),
                            "Pe": None if s.get("Pe") is None else s["Pe"].tolist(), "l_max": L, "with_property": prop, "seed": seed}
+                if explicit:
+                    base_in["grid"] = {"nphi": int(sht.nphi), "ntheta": int(sht.ntheta), "passed": "explicitly to SHT(l_max, nphi=, ntheta=)"}
                 try:
                     d0 = _descr(kind, sht, s, prop)
                 except ValueError as e:
@@ -440,7 +446,7 @@ def bounded_pose(kind, seed, tier):
                     motions.append(("permutation", None, None, rng.permutation(len(s["Zi"])), None if s.get("Ze") is None else rng.permutation(len(s["Ze"]))))
                 for (mk, R, t, p_i, p_e) in motions:
                     evals += 1
-                    distinct.add((L, s["name"], prop, mk, None if R is None else round(float(R[0, 0]), 9), None if t is None else round(float(t[0]), 9), None if p_i is None else tuple(p_i)))
+                    distinct.add((L, explicit, s["name"], prop, mk, None if R is None else round(float(R[0, 0]), 9), None if t is None else round(float(t[0]), 9), None if p_i is None else tuple(p_i)))
                     try:
                         d1 = _descr(kind, sht, s, prop, R, t, p_i, p_e)
                         e = desc_err(d0, d1, L)
@@ -448,7 +454,7 @@ def bounded_pose(kind, seed, tier):
                     except ValueError as ex:
                         e, obs = float("inf"), {"raised_in_moved_pose": repr(ex)}
                     cap = ROT_CAP[L] if mk == "rigid" else TOL_EXACT
-                    if mk == "rigid" and np.isfinite(e):
+                    if mk == "rigid" and np.isfinite(e) and not explicit:
                         mean_rot.setdefault((L, prop), []).append(e)
                         worst_rot[(L, prop)] = max(worst_rot.get((L, prop), 0.0), e)
                     if not e <= cap:
